@@ -32,7 +32,7 @@ def run(ctx):
     for v, o in zip(runs, outs):
         ops = [s["op"] for s in v["steps"]]
         shape = ",".join(("U" + ("+extra" if s["extra"] else "") + ("+" + s["action"] if s["action"] != "none" else "")) if s["op"] == "U" else "T" for s in v["steps"])
-        case = {"steps": v["steps"], "fmt": o["fmt"], "observed": [{k: s.get(k) for k in ("op", "sign", "own_binding")} | {"state": (s.get("read") or {}).get("state"), "failures": (s.get("read") or {}).get("failures"), "err": (s.get("read") or {}).get("err")} for s in o["steps"]]}
+        case = {"steps": v["steps"], "fmt": o["fmt"], "observed": [{k: s.get(k) for k in ("op", "sign", "own_binding", "forced")} | {"state": (s.get("read") or {}).get("state"), "failures": (s.get("read") or {}).get("failures"), "err": (s.get("read") or {}).get("err")} for s in o["steps"]]}
         if o.get("panic"):
             ctx.violation("panic", "panic while building / reading update manifests: %s" % o["panic"], case)
             continue
@@ -43,6 +43,12 @@ def run(ctx):
         refused = last.get("sign", "ok") != "ok"
         state = None if refused else (last.get("read") or {}).get("state")
         accepted = state in ("Valid", "Trusted")
+        # an ill-formed update manifest that the Builder refused was signed again with the signing-side test off (hook H5):
+        # the validator alone must then keep it from being Valid
+        for s in real:
+            f = s.get("forced")
+            if f and f.get("sign") == "ok" and (f.get("read") or {}).get("state") in ("Valid", "Trusted"):
+                ctx.violation("illformed-update-valid:validator:%s" % shape, "an ill-formed update manifest (%s), signed with the signing-side test switched off, is reported %s by the validator" % (shape, f["read"].get("state")), case | {"forced": f})
         for s in real:
             if s["op"] == "U" and s.get("sign") == "ok" and s.get("own_binding"):
                 ctx.violation("update-with-hard-binding:%s" % o["fmt"], "an update manifest produced through the Update intent carries its own hard binding", case)
